@@ -52,8 +52,11 @@ package server
 //@ func (*monitor).filter
 //@ requires m != nil && update != nil
 //@ modifies nothing
-//@ at call server.filterColumns requires arg1 == cols && ("_uuid" in cols) && (forall c: string :: (c in cols) == (c == "_uuid" || (exists i: int :: 0 <= i && i < len(columns) && columns[i] == c)))
+// RFC 7047 4.1.5: without "columns" every column is monitored (no projection);
+// with it, the listed columns plus _uuid
+//@ at call server.filterColumns requires (columns == nil ==> arg1 == nil) && (columns != nil ==> (arg1 == cols && cols != nil && ("_uuid" in cols) && (forall c: string :: (c in cols) == (c == "_uuid" || (exists i: int :: 0 <= i && i < len(columns) && columns[i] == c)))))
 //@ loop 2 invariant cols != nil && ("_uuid" in cols) && (forall c: string :: (c in cols) == (c == "_uuid" || (exists i: int :: 0 <= i && i <= rangeindex && columns[i] == c)))
+//@ at update tus requires len(arg1) > 0
 //@ func (*monitor).filter$1
 //@ requires tu != nil
 //@ at update tu requires arg0 == uuid && arg1 == ru && ((ru.New != nil && ru.Old == nil && SelInsert(sel)) || (ru.New != nil && ru.Old != nil && SelModify(sel)) || (ru.New == nil && ru.Old != nil && SelDelete(sel)))
@@ -62,11 +65,17 @@ package server
 //@ modifies nothing
 // a row change is reported exactly when its kind is selected, projected on the
 // requested columns plus _uuid
-//@ at call server.filterColumns requires arg1 == cols && ("_uuid" in cols) && (forall c: string :: (c in cols) == (c == "_uuid" || (exists i: int :: 0 <= i && i < len(columns) && columns[i] == c)))
+// RFC 7047 4.1.5: without "columns" every column is monitored (no projection);
+// with it, the listed columns plus _uuid
+//@ at call server.filterColumns requires (columns == nil ==> arg1 == nil) && (columns != nil ==> (arg1 == cols && cols != nil && ("_uuid" in cols) && (forall c: string :: (c in cols) == (c == "_uuid" || (exists i: int :: 0 <= i && i < len(columns) && columns[i] == c)))))
 //@ loop 2 invariant cols != nil && ("_uuid" in cols) && (forall c: string :: (c in cols) == (c == "_uuid" || (exists i: int :: 0 <= i && i <= rangeindex && columns[i] == c)))
+// a table none of whose row changes is reported has no entry
+//@ at update tus2 requires len(arg1) > 0
 //@ func (*monitor).filter2$1
 //@ requires tu2 != nil
 //@ at update tu2 requires arg0 == uuid && ((ru2.Insert != nil && SelInsert(sel)) || (ru2.Modify != nil && SelModify(sel)) || (ru2.Delete != nil && SelDelete(sel)))
+// a modification none of whose columns is monitored is not reported
+//@ at update tu2 requires ru2.Modify == nil || len(*ru2.Modify) > 0
 // the columns are the request's columns whether or not it carries a select; the
 // select is the request's, or reports every kind of change when there is none
 //@ func (*monitor).requested
@@ -81,9 +90,11 @@ package server
 //@ func filterColumns
 //@ modifies nothing
 //@ ensures row == nil ==> result == nil
-//@ ensures row != nil ==> result != nil && fresh(result)
-//@ ensures row != nil ==> (forall k: string :: (k in *result) == ((k in *row) && (k in columns)))
-//@ ensures row != nil ==> (forall k: string :: (k in *result) ==> (*result)[k] == (*row)[k])
+// no column list: the row itself (it is not written here or by the callers)
+//@ ensures row != nil && columns == nil ==> result == row
+//@ ensures row != nil && columns != nil ==> result != nil && fresh(result)
+//@ ensures row != nil && columns != nil ==> (forall k: string :: (k in *result) == ((k in *row) && (k in columns)))
+//@ ensures row != nil && columns != nil ==> (forall k: string :: (k in *result) ==> (*result)[k] == (*row)[k])
 //@ loop 1 invariant forall k: string :: (k in new) == (visited(k) && (k in *row) && (k in columns))
 //@ loop 1 invariant forall k: string :: (k in new) ==> new[k] == (*row)[k]
 
